@@ -226,16 +226,22 @@ int16_t COLssSwitchStateSelective_Serial(CO_LSS *lss, CO_IF_FRM *frm)
     return result;
 }
 
+/* progress of the bit timing switch (distinct from the steps of the
+ * selective switch and the identify remote slave sequences)
+ */
+#define CO_LSS_ACT_DELAY_1   20
+#define CO_LSS_ACT_DELAY_2   21
+
 static void CO_LssActivateBitTiming_SwitchDelay (void *arg)
 {
     CO_LSS *lss;
 
     lss = (CO_LSS *)arg;
 
-    if (lss->Step == 1) {
+    if (lss->Step == CO_LSS_ACT_DELAY_1) {
         COIfCanInit(&lss->Node->If, lss->Node);
         COIfCanEnable(&lss->Node->If, lss->CfgBaudrate);
-        lss->Step = 2;
+        lss->Step = CO_LSS_ACT_DELAY_2;
     } else {
         CONmtSetMode(&lss->Node->Nmt, CO_PREOP);
         COTmrDelete(&lss->Node->Tmr, lss->Tmr);
@@ -256,7 +262,11 @@ int16_t COLssActivateBitTiming(CO_LSS *lss, CO_IF_FRM *frm)
     COIfCanClose(&lss->Node->If);
     tmr       = &lss->Node->Tmr;
     ticks     = COTmrGetTicks(tmr, delay, CO_TMR_UNIT_1MS);
-    lss->Step = 1;
+    if (ticks == 0u) {
+        /* shortest possible switch delay */
+        ticks = 1u;
+    }
+    lss->Step = CO_LSS_ACT_DELAY_1;
     lss->Tmr  = COTmrCreate(tmr,
                 0,
                 ticks,
